@@ -665,7 +665,12 @@ func c19Hop(t *testing.T, c c19Case, res map[string]any) {
 					fail("WriteTo succeeded after Close had returned")
 				}
 			}
+			// ReadFrom calls are made one at a time (a channel semaphore: blocking on it is durable in the bubble), so
+			// that the order of the "R" entries is the order in which the packets left the queue
+			readSem := make(chan struct{}, 1)
 			doRead := func() {
+				readSem <- struct{}{}
+				defer func() { <-readSem }()
 				w.mu.Lock()
 				closedBefore := w.closeRet
 				rid := w.nextRid
